@@ -78,7 +78,10 @@ def build(prop, need_harness=True):
         # 1. translators
         gen = os.path.join(ROOT, "tools", "gen_all.py")
         if os.path.exists(gen):
-            rc, out, err, dt = sh([sys.executable, gen], cwd=ROOT, timeout=600)
+            genv = dict(ENV)
+            if prop == "C14":
+                genv["JAMM_GEN_API"] = "1"   # the API table needs nightly rustdoc (≈13 s when the source changed)
+            rc, out, err, dt = sh([sys.executable, gen], cwd=ROOT, timeout=900, env=genv)
             if rc == 3:
                 # part of the generated model could not be regenerated: the poisoned file makes exactly
                 # the theorems that depend on it fail to build (reported below if this property is one)
@@ -88,7 +91,7 @@ def build(prop, need_harness=True):
                 r.messages.append("translator failed: " + (out + err)[-2000:])
                 r.failed_obligations.append("translator:" + (out + err).strip().split("\n")[-1][:200])
         # 2. lean
-        targets = ["jmodel", "Jamm.Props.%s" % prop]
+        targets = ["jmodel", "Jamm.Props.%s" % prop] + (["japi"] if prop == "C14" else [])
         rc, out, err, dt = sh(["lake", "build"] + targets, cwd=LEAN, timeout=3000)
         if rc != 0:
             r.ok = r.lean_ok = False
